@@ -1,5 +1,5 @@
 (* C02 - a valid stream (Spec.v) is delivered frame by frame, under every segmentation. *)
-From Coq Require Import NArith List Bool Arith Lia.
+From Coq Require Import NArith ZArith List Bool Arith Lia.
 From PV Require Import Common.Cases Common.Framing Common.Endian C02.Model C02.Spec C02.ProofsBase C02.ProofsLaws.
 Import ListNotations.
 Local Open Scope N_scope.
